@@ -1,5 +1,6 @@
 SPECIFICATION Spec
 CONSTANTS
+  ShtabBreaksDefaults = {"A"}
   ClearOnError = TRUE
   Full = FALSE
   Emit = FALSE
